@@ -9,6 +9,7 @@ _MODULES = {
     "C05": ("scen_api", "C05"),
     "C06": ("scen_api", "C06"),
     "C07": ("scen_fs", "C07"),
+    "C11": ("scen_fs", "C11"),
     "C13": ("scen_api", "C13"),
     "C14": ("scen_fs", "C14"),
     "C16": ("scen_c16", "C16"),
